@@ -293,6 +293,18 @@ theorem C10_positions (t : FText) (nodes : List Node) (wp : WellPlaced t nodes) 
 
 theorem isCB_nil : isCommentOrBlank [] = true := by simp [isCommentOrBlank]
 
+theorem isWsFF_isPySpace (c : Char) (h : isWsFF c = true) : isPySpace c = true := by
+  unfold isWsFF at h
+  simp only [Bool.or_eq_true, decide_eq_true_eq] at h
+  rcases h with (h | h) | h <;> subst h <;> decide
+
+/-- a run of blanks, tabs and form feeds is a blank line for `_is_comment_or_blank` -/
+theorem isCB_of_ws (l : Str) (h : l.all isWsFF = true) : isCommentOrBlank l = true := by
+  unfold isCommentOrBlank
+  rw [List.all_eq_true] at h ⊢
+  intro c hc
+  exact isWsFF_isPySpace c (h c ((List.takeWhile_sublist _).subset hc))
+
 theorem nodePieces_noncode (t : FText) (i : Nat) (nd : Node) (nxt : Pos)
     (hne : t.lines ≠ []) (hcol : 1 ≤ t.start.col) (vs : Valid t nd.start) (vn : Valid t nxt)
     (hlt : nd.start.lt nxt = true) (hle : nxt.le t.endpos = true) :
@@ -355,7 +367,14 @@ theorem nodePieces_noncode (t : FText) (i : Nat) (nd : Node) (nxt : Pos)
         simpa [List.getD, List.getElem?_eq_getElem hlt2] using this
       · simp at hm
         subst hm
-        rcases hlast with hc | ⟨hend, hcb⟩
+        rcases hlast with hc | ⟨hend, hcb⟩ | ⟨hnl, hws⟩
+        rotate_left 2
+        · -- only whitespace in front of the next node on its line
+          have hcoff : t.colOff (nxt.line - t.start.line) = 1 := by
+            simp only [FText.colOff]; rw [if_neg (by omega)]
+          rw [hcoff]
+          unfold lineOf at hws
+          exact isCB_of_ws _ hws
         · have : nxt.col - t.colOff (nxt.line - t.start.line) = 0 := by
             simp [FText.colOff, hc]
             split <;> omega
